@@ -225,6 +225,25 @@ def step (cfg : Cfg) (line : String) : String :=
     match (parts ";" evs).mapM parseDispEv with
     | some es => showOuts (dispRun cfg {} es).2
     | none => bad
+  | ["conn", kind] =>
+    -- member X = 2, the node itself = 1 (announcing it fails the handshake), another id = 3, none = 0
+    let evs : Option (List ConnEv) :=
+      if kind == "match" then some [.dial 2 2 true, .hangup 2, .req 2]
+      else if kind == "other" then some [.dial 2 3 true, .hangup 2, .req 2]
+      else if kind == "empty" then some [.dial 2 0 true, .hangup 2, .req 2]
+      else if kind == "own" then some [.dial 2 1 false, .req 2]
+      else if kind == "none" then some [.dial 2 2 false, .req 2]
+      else if kind == "in2" || kind == "inclose" then some [.req 2]
+      else none
+    match evs with
+    | some es =>
+      let outs := (connRun cfg {} es).2
+      match outs.find? Out.isPanic, outs.getLast? with
+      | some p, _ => p.show
+      | none, some (.err k) => "err " ++ k
+      | none, some _ => "ok"
+      | none, none => bad
+    | none => bad
   | ["mdisp", m] =>
     if m == "nil" then (messageDispatch cfg .nilMsg).show
     else if m == "sub" then (messageDispatch cfg .subscribed).show
